@@ -40,8 +40,9 @@ func CheckRecursion(rootTypeName string, rootSchema *schema.Schema) error {
 			// Obviously, root type was visited.
 			rootTypeName: {},
 		},
-		path:  []string{rootTypeName},
-		clean: map[*schema.Schema]struct{}{},
+		path:      []string{rootTypeName},
+		clean:     map[*schema.Schema]struct{}{},
+		rootTypes: rootSchema.TypesList(),
 	}
 
 	return rc.check(rootSchema.RootNode(), rootSchema.TypesList())
@@ -60,6 +61,11 @@ type recursionChecker struct {
 	// type. Such a type can't lead to a recursion whatever the path it is reached
 	// by, so there is no need to walk it again.
 	clean map[*schema.Schema]struct{}
+
+	// rootTypes the types of the schema being checked. The "allOf" rules of a type
+	// are compiled into a copy of the type, and this is the only table which
+	// holds the copy: the table of another type holds the type as it is written.
+	rootTypes map[string]schema.Type
 
 	// dropped a number of alternatives which were dropped 'cause they lead to
 	// a recursion. A walk which drops an alternative depends on the path.
@@ -216,6 +222,10 @@ func (c *recursionChecker) checkType(typeName string, types map[string]schema.Ty
 	c.current = typeName
 
 	t := types[typeName]
+	// The properties a type inherits are as required as the ones written in it.
+	if rt, ok := c.rootTypes[typeName]; ok && rt.Schema().IsCopyOf(t.Schema()) {
+		t = rt
+	}
 	if t.Schema() == nil {
 		// This might happen if we didn't know anything about this type.
 		// Normally we shouldn't get this situation.
